@@ -21,11 +21,12 @@ const (
 )
 
 type Val struct {
-	K  VKind
-	T  *Term
-	F  []Val
-	A  *Addr
-	Ty types.Type
+	K    VKind
+	T    *Term
+	F    []Val
+	A    *Addr
+	Ty   types.Type
+	KeyT *Term // struct value decoded from a map key: the key's index term
 }
 
 const (
